@@ -76,11 +76,17 @@ pub fn profile(prop: &str, rng: &mut Rng) -> Profile {
     match prop {
         "C01" => {
             p.nops = (10, 120);
+            if rng.chance(20) {
+                p.faults = FaultMode::Transparent;
+            }
         }
         "C02" => {
             p.nops = (10, 80);
             p.restarts = true;
             p.cache = CacheMode::Any;
+            if rng.chance(35) {
+                p.faults = FaultMode::Transparent;
+            }
         }
         "C03" | "C05" => {
             p.nops = (6, 40);
@@ -146,6 +152,9 @@ pub fn profile(prop: &str, rng: &mut Rng) -> Profile {
             p.readers = true;
             p.restarts = rng.chance(50);
             p.lower_term = rng.chance(30);
+            if rng.chance(25) {
+                p.faults = FaultMode::Transparent;
+            }
         }
         "C15" => {
             p.nops = (10, 100);
